@@ -319,6 +319,25 @@ Theorem gen_pdhg_defaults_is_model :
 Proof. exact gen_pdhg_run_none. Qed.
 Print Assumptions gen_pdhg_defaults_is_model.
 
+(* only one of x_relax / y passed: the log is the model trace from the corresponding initial state *)
+Theorem gen_pdhg_partial_defaults_is_model :
+  forall (L Ladj proxp proxd : list R -> list R) (tau sigma theta : R) (m : nat) (junk : string -> list R)
+         (niter : nat) (x v : list R),
+  let I := pdhg_I L Ladj proxp proxd tau sigma theta m junk in
+  let st := pdhg_step L Ladj proxp proxd tau sigma theta in
+  (exists s, run_prog I pdhg_pre pdhg_body niter
+       (mk_hst [("x", 0%nat); ("caller.x", 0%nat); ("x_relax", 1%nat); ("caller.x_relax", 1%nat)] [x; v] []) = Some s
+     /\ h_log s = trace pd_x niter st (pdhg_init m x (Some v) None))
+  /\ (exists s, run_prog I pdhg_pre pdhg_body niter
+       (mk_hst [("x", 0%nat); ("caller.x", 0%nat); ("y", 1%nat); ("caller.y", 1%nat)] [x; v] []) = Some s
+     /\ h_log s = trace pd_x niter st (pdhg_init m x None (Some v))).
+Proof.
+  exact (fun L Ladj proxp proxd tau sigma theta m junk niter x v =>
+    conj (ex_intro _ _ (conj (gen_pdhg_run_xr L Ladj proxp proxd tau sigma theta m junk niter x v) eq_refl))
+         (ex_intro _ _ (conj (gen_pdhg_run_y L Ladj proxp proxd tau sigma theta m junk niter x v) eq_refl))).
+Qed.
+Print Assumptions gen_pdhg_partial_defaults_is_model.
+
 Theorem gen_landweber_is_model :
   forall (A : list R -> list R) (Dadj : list R -> list R -> list R) (proj : list R -> list R) (omega : R)
          (junk : string -> list R) (niter : nat) (x rhs : list R),
